@@ -638,6 +638,9 @@ pub enum Stop {
     Panic,
     /// evaluation of the whole entry point has ended (finish executed / recall block ended)
     Exit(Exit),
+    /// the fact store refused the operation (create of an existing fact, delete/update of a
+    /// missing one, update whose expected values differ): the VM reports a machine error
+    IoError(&'static str),
     /// the construct is outside what the interpreter models (reported, never compared)
     Unmodelled(&'static str),
 }
@@ -927,19 +930,20 @@ impl<'a> Interp<'a> {
             }
             Stmt::Create(f) => {
                 let (keys, vals) = self.fact_lit(f, env)?;
+                // the I/O layer sees the call before it can refuse it
+                self.io.push(IoEvent::Insert { fact: f.name, keys: keys.clone(), vals: vals.clone() });
                 if self.facts.contains_key(&(f.name, keys.clone())) {
-                    return Err(Stop::Unmodelled("create of existing fact (I/O error)"));
+                    return Err(Stop::IoError("fact exists"));
                 }
-                self.facts.insert((f.name, keys.clone()), vals.clone());
-                self.io.push(IoEvent::Insert { fact: f.name, keys, vals });
+                self.facts.insert((f.name, keys), vals);
                 Ok(())
             }
             Stmt::Delete(f) => {
                 let (keys, _) = self.fact_lit(f, env)?;
-                if self.facts.remove(&(f.name, keys.clone())).is_none() {
-                    return Err(Stop::Unmodelled("delete of missing fact (I/O error)"));
+                self.io.push(IoEvent::Delete { fact: f.name, keys: keys.clone() });
+                if self.facts.remove(&(f.name, keys)).is_none() {
+                    return Err(Stop::IoError("fact not found"));
                 }
-                self.io.push(IoEvent::Delete { fact: f.name, keys });
                 Ok(())
             }
             Stmt::Update(f, to) => {
@@ -949,10 +953,10 @@ impl<'a> Interp<'a> {
                     to_vals.push(self.eval(e, env)?);
                 }
                 match self.facts.get(&(f.name, keys.clone())) {
-                    None => return Err(Stop::Unmodelled("update of missing fact")),
+                    None => return Err(Stop::IoError("update of missing fact")),
                     Some(cur) => {
                         if f.vals.is_some() && cur != &from_vals {
-                            return Err(Stop::Unmodelled("update precondition mismatch"));
+                            return Err(Stop::IoError("update precondition mismatch"));
                         }
                     }
                 }
